@@ -42,8 +42,18 @@ def dist_capped(a, b):
     return min(abs(a - b), 1.5)
 
 
+def dist_discrete(a, b):
+    """The discrete metric: all distinct objects are equally far (n-way ties)."""
+    return 0 if a == b else 1
+
+
+def dist_hamming(a, b):
+    """Number of differing bits (three-way ties and more)."""
+    return bin(a ^ b).count("1")
+
+
 DISTS = {"abs": dist_abs, "sq": dist_sq, "near0": dist_near_zero,
-         "cap": dist_capped}
+         "cap": dist_capped, "disc": dist_discrete, "ham": dist_hamming}
 
 
 def merge(values, dist):
